@@ -93,7 +93,27 @@ func zzStubGenerateCKX(ka *eccKeyAgreementGM, config *Config, ch *clientHelloMsg
 	return make([]byte, 48), &clientKeyExchangeMsg{ciphertext: []byte{0, 0}}, nil
 }
 
+// zzMS records how the master secret was derived: from which pre-master secret and with
+// which randoms in which positions.
+var zzMS struct {
+	calls  int
+	argsOK bool
+	pms    []byte
+}
+
+func zzRandomOf(tag byte) []byte {
+	r := make([]byte, 32)
+	for i := range r {
+		r[i] = tag
+	}
+	return r
+}
+
 func zzStubMasterFromPMS(version uint16, suite *cipherSuite, pms, cr, sr []byte) []byte {
+	zzMS.calls++
+	// the flow harnesses use the client random 0xC1.. and the server random 0x5E..
+	zzMS.argsOK = len(cr) == 32 && len(sr) == 32 && cr[0] == 0xC1 && cr[31] == 0xC1 && sr[0] == 0x5E && sr[31] == 0x5E
+	zzMS.pms = pms
 	return make([]byte, 48)
 }
 
@@ -114,7 +134,7 @@ func zzStubMasterFromPMS(version uint16, suite *cipherSuite, pms, cr, sr []byte)
 //verif:stub (*github.com/tjfoc/gmsm/gmtls.eccKeyAgreementGM).processServerKeyExchange zzStubProcessSKX
 //verif:stub (*github.com/tjfoc/gmsm/gmtls.eccKeyAgreementGM).generateClientKeyExchange zzStubGenerateCKX
 //verif:stub github.com/tjfoc/gmsm/gmtls.masterFromPreMasterSecret zzStubMasterFromPMS
-//verif:unwind 20
+//verif:unwind 100
 //verif:nomerge
 func zzH_c08_client_flow() { zzClientFlow(false) }
 
@@ -129,10 +149,14 @@ func zzClientFlow(c15 bool) {
 		}
 	}
 	hs := &clientHandshakeStateGM{c: c, suite: suite,
-		hello:       &clientHelloMsg{vers: VersionGMSSL, random: make([]byte, 32)},
-		serverHello: &serverHelloMsg{vers: VersionGMSSL, random: make([]byte, 32)},
+		hello:       &clientHelloMsg{vers: VersionGMSSL, random: zzRandomOf(0xC1)},
+		serverHello: &serverHelloMsg{vers: VersionGMSSL, random: zzRandomOf(0x5E)},
 		finishedHash: newFinishedHashGM(suite)}
+	zzMS.calls = 0
 	err := hs.doFullHandshake()
+	if err == nil {
+		vAssert("master-secret-from-client-random-then-server-random", zzMS.calls == 1 && zzMS.argsOK)
+	}
 	if zzF.ckxGenerated {
 		vAssert("client-key-exchange-only-after-verified-server-key-exchange", !zzF.ckxBeforeSkx)
 		vAssert("pre-master-encrypted-to-encryption-certificate", len(zzF.parsed) >= 2 && zzF.ckxForCert == zzF.parsed[1])
